@@ -15,7 +15,7 @@ theorem invS_pollSet (s : St) (nc : Option Id) (i : Id) (ev : Flags) (h : InvS s
   obtain ⟨hx, h1, h2, h3⟩ := pollSet_spec s i ev h.selSub
   have hx' := hx
   obtain ⟨a, b, c, d, e⟩ := hx
-  refine ⟨h3, ?_, ?_, ?_, ?_, ?_⟩
+  refine ⟨h3, ?_, ?_, ?_, ?_, ?_, h.ncBig⟩
   · intro j reg hj
     rw [kindOk_sameX hx']
     by_cases hji : j = i
@@ -30,7 +30,7 @@ theorem invS_pollRemove (s : St) (nc : Option Id) (i : Id) (h : InvS s nc) : Inv
   obtain ⟨hx, h1, h2, h3⟩ := pollRemove_spec s i h.selSub
   have hx' := hx
   obtain ⟨a, b, c, d, e⟩ := hx
-  refine ⟨h3, ?_, ?_, ?_, ?_, ?_⟩
+  refine ⟨h3, ?_, ?_, ?_, ?_, ?_, h.ncBig⟩
   · intro j reg hj
     rw [kindOk_sameX hx']
     by_cases hji : j = i
@@ -52,8 +52,8 @@ syntax "invs_leaf " ident : tactic
 macro_rules
   | `(tactic| invs_leaf $h:ident) => `(tactic|
       (have a1 := ($h).selSub; have a2 := ($h).kind; have a3 := ($h).hasCb; have a4 := ($h).closing
-       have a5 := ($h).ncLive; have a6 := ($h).noFault
-       refine ⟨?_, ?_, ?_, ?_, ?_, ?_⟩ <;> unfold KindOk at * <;> simp only [upd, markGone] at * <;>
+       have a5 := ($h).ncLive; have a6 := ($h).noFault; have a7 := ($h).ncBig
+       refine ⟨?_, ?_, ?_, ?_, ?_, ?_, ?_⟩ <;> unfold KindOk at * <;> (try simp only [upd, markGone] at *) <;>
          first | assumption | grind))
 
 theorem invS_updClient (s : St) (nc : Option Id) (i : Id) (c c' : ClientS) (h : InvS s nc)
@@ -73,8 +73,8 @@ theorem invS_addClosing (s : St) (nc : Option Id) (i : Id) (h : InvS s nc) (hc :
     InvS (addClosing s i) nc := by
   unfold addClosing
   split
-  · exact ⟨h.selSub, h.kind, h.hasCb, h.closing, h.ncLive, h.noFault⟩
-  · refine ⟨h.selSub, h.kind, h.hasCb, ?_, h.ncLive, h.noFault⟩
+  · exact ⟨h.selSub, h.kind, h.hasCb, h.closing, h.ncLive, h.noFault, h.ncBig⟩
+  · refine ⟨h.selSub, h.kind, h.hasCb, ?_, h.ncLive, h.noFault, h.ncBig⟩
     intro j hj
     simp only [List.mem_append, List.mem_singleton] at hj
     rcases hj with hj | rfl
@@ -87,7 +87,7 @@ theorem invS_deleteClient (s : St) (nc : Option Id) (i : Id) (h : InvS s nc) (hn
   unfold deleteClient
   dsimp only
   have h0 : InvS { s with closing := s.closing.filter (· ≠ i) } nc := by
-    refine ⟨h.selSub, h.kind, h.hasCb, ?_, h.ncLive, h.noFault⟩
+    refine ⟨h.selSub, h.kind, h.hasCb, ?_, h.ncLive, h.noFault, h.ncBig⟩
     intro j hj
     exact h.closing j (List.mem_filter.mp hj).1
   have hni : ∀ j, j ∈ ({ s with closing := s.closing.filter (· ≠ i) } : St).closing → j ≠ i := by
@@ -99,7 +99,7 @@ theorem invS_deleteClient (s : St) (nc : Option Id) (i : Id) (h : InvS s nc) (hn
   generalize pollRemove { s with closing := s.closing.filter (· ≠ i) } i = s2 at h1 hl hcl ⊢
   have a1 := h1.selSub; have a2 := h1.kind; have a3 := h1.hasCb; have a4 := h1.closing
   have a5 := h1.ncLive; have a6 := h1.noFault
-  refine ⟨a1, ?_, ?_, ?_, ?_, a6⟩
+  refine ⟨a1, ?_, ?_, ?_, ?_, a6, h1.ncBig⟩
   · intro j reg hj
     have hji : j ≠ i := by intro e; subst e; simp only [markGone] at hj; rw [hl] at hj; simp at hj
     have := a2 j reg hj
@@ -127,7 +127,7 @@ theorem invS_deleteNew (s : St) (i : Id) (h : InvS s (some i)) : InvS (deleteCli
   unfold deleteClient
   dsimp only
   have h0 : InvS { s with closing := s.closing.filter (· ≠ i) } (some i) := by
-    refine ⟨h.selSub, h.kind, h.hasCb, ?_, h.ncLive, h.noFault⟩
+    refine ⟨h.selSub, h.kind, h.hasCb, ?_, h.ncLive, h.noFault, h.ncBig⟩
     intro j hj
     exact h.closing j (List.mem_filter.mp hj).1
   have h1 := invS_pollRemove _ (some i) i h0
@@ -137,7 +137,7 @@ theorem invS_deleteNew (s : St) (i : Id) (h : InvS s (some i)) : InvS (deleteCli
   generalize pollRemove { s with closing := s.closing.filter (· ≠ i) } i = s2 at h1 hl hcl ⊢
   have a1 := h1.selSub; have a2 := h1.kind; have a3 := h1.hasCb; have a4 := h1.closing
   have a6 := h1.noFault
-  refine ⟨a1, ?_, ?_, ?_, ?_, a6⟩
+  refine ⟨a1, ?_, ?_, ?_, ?_, a6, by intro j hj; simp at hj⟩
   · intro j reg hj
     have hji : j ≠ i := by intro e; subst e; simp only [markGone] at hj; rw [hl] at hj; simp at hj
     have := a2 j reg hj
@@ -185,7 +185,7 @@ theorem invS_rmListener (s : St) (nc : Option Id) (i : Id) (h : InvS s nc) : Inv
     generalize pollRemove s i = s2 at h1 hl ⊢
     have a1 := h1.selSub; have a2 := h1.kind; have a3 := h1.hasCb; have a4 := h1.closing
     have a5 := h1.ncLive; have a6 := h1.noFault
-    refine ⟨a1, ?_, a3, a4, a5, a6⟩
+    refine ⟨a1, ?_, a3, a4, a5, a6, h1.ncBig⟩
     intro j reg hj
     have hji : j ≠ i := by intro e; subst e; simp only [markGone] at hj; rw [hl] at hj; simp at hj
     have := a2 j reg hj
@@ -203,7 +203,7 @@ theorem invS_rmEst (s : St) (nc : Option Id) (i : Id) (h : InvS s nc) : InvS (rm
     generalize pollRemove s i = s2 at h1 hl ⊢
     have a1 := h1.selSub; have a2 := h1.kind; have a3 := h1.hasCb; have a4 := h1.closing
     have a5 := h1.ncLive; have a6 := h1.noFault
-    refine ⟨a1, ?_, a3, a4, a5, a6⟩
+    refine ⟨a1, ?_, a3, a4, a5, a6, h1.ncBig⟩
     intro j reg hj
     have hji : j ≠ i := by intro e; subst e; simp only [markGone] at hj; rw [hl] at hj; simp at hj
     have := a2 j reg hj
@@ -215,7 +215,7 @@ theorem invS_rmEst (s : St) (nc : Option Id) (i : Id) (h : InvS s nc) : InvS (rm
 theorem invS_interrupt (s : St) (nc : Option Id) (h : InvS s nc) : InvS (interrupt s) nc := by
   unfold interrupt; split
   · exact h
-  · exact ⟨h.selSub, h.kind, h.hasCb, h.closing, h.ncLive, h.noFault⟩
+  · exact ⟨h.selSub, h.kind, h.hasCb, h.closing, h.ncLive, h.noFault, h.ncBig⟩
 
 /-- update a client record and re-register it with client flags -/
 theorem invS_updSet (s : St) (nc : Option Id) (i : Id) (c c' : ClientS) (su : Bool) (b : Nat) (h : InvS s nc)
@@ -276,17 +276,50 @@ theorem invS_mkTimer (s : St) (nc : Option Id) (i : Id) (iv : Int) (h : InvS s n
   unfold mkTimer
   dsimp only
   split
-  · exact ⟨h.selSub, h.kind, h.hasCb, h.closing, h.ncLive, h.noFault⟩
+  · exact ⟨h.selSub, h.kind, h.hasCb, h.closing, h.ncLive, h.noFault, h.ncBig⟩
   · exact h
 
 theorem invS_rmTimer (s : St) (nc : Option Id) (i : Id) (h : InvS s nc) : InvS (rmTimer s i) nc := by
   unfold rmTimer
   split
-  · exact ⟨h.selSub, h.kind, h.hasCb, h.closing, h.ncLive, h.noFault⟩
+  · exact ⟨h.selSub, h.kind, h.hasCb, h.closing, h.ncLive, h.noFault, h.ncBig⟩
+  · exact h
+
+theorem fresh_lt (s : St) (i : Id) (h : fresh s i = true) : i < 1000 := by
+  unfold fresh at h; simp at h; exact h.2
+
+theorem invS_mkPair (s : St) (nc : Option Id) (i : Id) (h : InvS s nc) : InvS (mkPair s i) nc := by
+  unfold mkPair
+  dsimp only
+  split
+  · rename_i hf
+    have hlt := fresh_lt s i hf
+    have hne : nc ≠ some i := by intro e; exact absurd hlt (Nat.not_lt.mpr (h.ncBig i e))
+    apply invS_pollSet
+    · invs_leaf h
+    · exact Or.inl ⟨{ hasCb := true }, by simp [upd], rfl, rfl⟩
+  · exact h
+
+theorem invS_mkListener (s : St) (nc : Option Id) (i : Id) (h : InvS s nc) : InvS (mkListener s i) nc := by
+  unfold mkListener
+  dsimp only
+  split
+  · apply invS_pollSet
+    · invs_leaf h
+    · exact Or.inr (Or.inl ⟨{}, by simp [upd], rfl, rfl, rfl⟩)
+  · exact h
+
+theorem invS_mkEst (s : St) (nc : Option Id) (i : Id) (h : InvS s nc) : InvS (mkEst s i) nc := by
+  unfold mkEst
+  dsimp only
+  split
+  · apply invS_pollSet
+    · invs_leaf h
+    · exact Or.inr (Or.inr ⟨{}, by simp [upd], rfl, rfl, rfl⟩)
   · exact h
 
 theorem invS_applyAct (s : St) (nc : Option Id) (a : Act) (h : InvS s nc) : InvS (applyAct s nc a) nc := by
-  cases a <;> unfold applyAct
+  cases a <;> simp only [applyAct]
   case mkTimer i iv => exact invS_mkTimer s nc i iv h
   case rmTimer i => exact invS_rmTimer s nc i h
   case rmClient i => exact invS_rmClient s nc i h
@@ -299,6 +332,9 @@ theorem invS_applyAct (s : St) (nc : Option Id) (a : Act) (h : InvS s nc) : InvS
   case resume i => exact invS_resume s nc i h
   case read i => exact invS_read s nc i h
   case write i n o => exact invS_write s nc i n o h
+  case mkPair i => exact invS_mkPair s nc i h
+  case mkListener i => exact invS_mkListener s nc i h
+  case mkEst i => exact invS_mkEst s nc i h
 
 theorem invS_runActs (s : St) (nc : Option Id) (acts : List Act) (h : InvS s nc) : InvS (runActs s nc acts) nc := by
   induction acts generalizing s with
@@ -307,6 +343,6 @@ theorem invS_runActs (s : St) (nc : Option Id) (acts : List Act) (h : InvS s nc)
 
 theorem invS_callback (s : St) (i : Id) (nc : Option Id) (h : InvS s nc) : InvS (callback s i nc).1 nc := by
   unfold callback
-  exact invS_runActs _ nc _ ⟨h.selSub, h.kind, h.hasCb, h.closing, h.ncLive, h.noFault⟩
+  exact invS_runActs _ nc _ ⟨h.selSub, h.kind, h.hasCb, h.closing, h.ncLive, h.noFault, h.ncBig⟩
 
 end Nstd.Server.C14
